@@ -54,6 +54,9 @@ func (m *PacketFactoryCopy) NewPacket(
 	if len(payload) > maxPayloadLen {
 		return nil, io.ErrShortBuffer
 	}
+	if rtxSsrc != 0 && rtxPayloadType != 0 && len(payload) > maxPayloadLen-rtxSsrcByteLength {
+		return nil, io.ErrShortBuffer
+	}
 
 	retainablePacket := &RetainablePacket{
 		onRelease:      m.releasePacket,
